@@ -31,7 +31,12 @@ MANIFEST_ENTRY = {
                   "expire, delete_snapshot, garbage_collect and of transactions COMBINING kinds (append+expire, delete+append, "
                   "delete+append+expire, two appends: one operation, one pointer advance) on tables with 0..3 prior snapshots, each followed by reopen, "
                   "full read of every retained snapshot, follow-up append and grace-0 collection",
-    "level_note": "trusted: Coq kernel; fork/os._exit as the crash (page cache survives: power loss is C16); kernel drops flocks "
+    "level_note": "scope of the THEOREMS: commit-protocol crashes (append, delete_files, expire, delete_snapshot and combined "
+                  "transactions are all one commit of the machine); 'reopen' in Coq is the table the pointer names (pointer intact: "
+                  "recovery after pointer loss is C10); crashes of table CREATION, of a COLLECTION, at the OS-level sub-steps of one "
+                  "atomic write, and 'a later collection removes only leftovers' are decided by the fork-and-kill harness (every step k, "
+                  "then reopen / full read / follow-up append / grace-0 collection / aged-marker collection), not by a Coq statement; "
+                  "trusted: Coq kernel; fork/os._exit as the crash (page cache survives: power loss is C16); kernel drops flocks "
                   "of a dead process; the model's steps are the protocol steps, the sub-steps of one atomic write are covered by "
                   "the kill harness and by C16's publish theorem",
     "technique": "Coq invariant proof with crash events + exhaustive fork-and-kill differential check",
